@@ -197,6 +197,12 @@ pub fn check_c03(tier: &str) -> ! {
 	rep.finish()
 }
 
+pub fn c11_menu(rep: &mut Report, thorough: bool) {
+	let mut progs = c10_programs(false);
+	progs.extend(c03_programs(false));
+	run_menu(rep, progs, if thorough { 9 } else { 6 });
+}
+
 pub fn c10_menu(rep: &mut Report, tier: &str) {
 	run_menu(rep, c10_programs(tier == "thorough"), if tier == "thorough" { 0 } else { 10 });
 }
